@@ -4,12 +4,10 @@ package hsrv
 
 import (
 	"net/http"
-	"net/url"
 	"os"
 )
 
 //verif:stub net.SplitHostPort stubSplitHostPort
-//verif:stub (*net/url.URL).String stubURLString
 //verif:stub os.Open stubOsOpenFail
 //verif:stub net/http.Error stubHTTPError
 
@@ -25,14 +23,6 @@ func stubSplitHostPort(hostport string) (string, string, error) {
 		}
 	}
 	return "", "", &stubErr{"missing port in address"}
-}
-
-// stubURLString: what (*url.URL).String yields for a URL with a plain path and a raw query.
-func stubURLString(u *url.URL) string {
-	if u.RawQuery == "" {
-		return u.Path
-	}
-	return u.Path + "?" + u.RawQuery
 }
 
 var (
